@@ -114,3 +114,9 @@ Theorem C19_short_circuit_refuted_outside_class :
   (left_pure f104b = false /\ eval (fun _ => true) (fun _ => false) f104b = Panic 1%nat /\ reported f104b = nil).
 Proof. exact short_circuit_refuted_outside_class. Qed.
 Print Assumptions C19_short_circuit_refuted_outside_class.
+
+(* the statement the expression belongs to: what FOLLOWS it is untouched by the checks inside it (finding F100, repaired;
+   `before_F100_refuted` in the proofs shows the earlier behaviour losing `b := c && p != nil; return p.f`) *)
+Theorem C19_code_after_the_statement_is_untouched : forall e after c, In c after -> In c (proc_stmt e after).
+Proof. exact after_survives. Qed.
+Print Assumptions C19_code_after_the_statement_is_untouched.
